@@ -44,6 +44,12 @@ pub struct Plan {
     pub last_layer_len_delta: i64,
     pub grind: bool,
     pub falsify_output: bool,
+    /// S7: garbage trace/composition commitments; the row answers at the queries are solved after
+    /// the fact so that the DEEP function vanishes there
+    pub unbound_answers: bool,
+    /// S4: garbage FRI layer commitments; one sibling leaf per first-layer coset is solved so that
+    /// every fold lands on the all-zero last layer
+    pub adaptive_siblings: bool,
     /// the rejection a correct verifier is expected to give (substring of the error debug string)
     pub expect_rejection: &'static str,
 }
@@ -52,7 +58,7 @@ impl Plan {
     fn base(strategy: &'static str, expect: &'static str) -> Plan {
         Plan {
             strategy, pow_bits: 20, n_queries: None, blowup_mod_p: None, fri_extra: false, lie_openings: false, decouple: false,
-            last_layer_len_delta: 0, grind: true, falsify_output: false, expect_rejection: expect,
+            last_layer_len_delta: 0, grind: true, falsify_output: false, unbound_answers: false, adaptive_siblings: false, expect_rejection: expect,
         }
     }
 }
@@ -64,7 +70,9 @@ pub fn plans() -> Vec<Plan> {
         Plan { decouple: true, falsify_output: true, ..Plan::base("S2 oods-length-decoupling (false output)", "Oods") },
         Plan { lie_openings: true, fri_extra: true, ..Plan::base("S3 fri-domain-larger-than-eval", "Validation") },
         Plan { lie_openings: true, blowup_mod_p: Some(2), n_queries: Some(16), ..Plan::base("S5 blowup-mod-p", "Validation") },
-        Plan { n_queries: Some(0), ..Plan::base("S6 no-queries", "") },
+        Plan { lie_openings: true, adaptive_siblings: true, ..Plan::base("S4 fri-adaptive-siblings", "Fri") },
+        Plan { lie_openings: true, n_queries: Some(0), ..Plan::base("S6 no-queries", "Validation") },
+        Plan { lie_openings: true, unbound_answers: true, ..Plan::base("S7 unbound-trace-answers", "Decommit") },
         Plan { lie_openings: true, ..Plan::base("S8 wrong-openings-honest-fri (control)", "Fri") },
         Plan { last_layer_len_delta: 1, ..Plan::base("S9 last-layer-too-long", "") },
         Plan { last_layer_len_delta: -1, ..Plan::base("S9 last-layer-too-short", "") },
@@ -243,7 +251,7 @@ pub fn forge<L: LayoutTrait + GenericLayoutTrait>(h: &Honest, plan: &Plan, rng: 
     let mut sponge = SpongeModel::with_counter(*tr.digest(), *tr.counter());
     let fparams = FriParams { steps: steps.clone(), lb: (e as i64 - sum) as u32, c: 0, n_friendly, hash: kind, extra_height: k };
     let mut note = String::new();
-    let fri: Option<FriProof> = if by_a.is_empty() {
+    let fri: Option<FriProof> = if by_a.is_empty() || plan.n_queries == Some(0) || plan.unbound_answers || plan.adaptive_siblings {
         None
     } else {
         // evaluate on the whole domain (natural order), interpolate, FRI-prove honestly
@@ -279,15 +287,19 @@ pub fn forge<L: LayoutTrait + GenericLayoutTrait>(h: &Honest, plan: &Plan, rng: 
     };
     // zero DEEP function: all-zero layers (level-constant trees)
     let mut zero_tables: Vec<Table> = vec![];
+    let mut zero_challenges: Vec<Felt> = vec![];
     let (roots, mut last): (Vec<Felt>, Vec<Felt>) = match &fri {
         Some(f) => (f.roots.clone(), f.last_full.clone()),
         None => {
             let mut roots = vec![];
             for (i, s) in steps[1..].iter().enumerate() {
                 let hgt = fparams.layer_height(i) + k;
-                let tb = Table::sparse(TreeParams { height: hgt, n_friendly, hash: kind }, 1usize << s, vec![Felt::ZERO; 1usize << s], BTreeMap::new());
+                // (S4: the first layer's committed rows are garbage - they will not match the leaves sent)
+                let fill = if plan.adaptive_siblings && i == 0 { rng.felt() } else { Felt::ZERO };
+                let tb = Table::sparse(TreeParams { height: hgt, n_friendly, hash: kind }, 1usize << s, vec![fill; 1usize << s], BTreeMap::new());
                 sponge.absorb(&[tb.root()]);
-                let _e = sponge.squeeze();
+                let e_i = sponge.squeeze();
+                zero_challenges.push(e_i);
                 roots.push(tb.root());
                 zero_tables.push(tb);
             }
@@ -358,6 +370,70 @@ pub fn forge<L: LayoutTrait + GenericLayoutTrait>(h: &Honest, plan: &Plan, rng: 
         }
     };
     sp.witness.fri_witness.layers = layers;
+    if plan.unbound_answers {
+        // S7: answers at the queried rows chosen after the fact so that the DEEP function is 0 there
+        let (mut v1, mut v2, mut v3) = (vec![], vec![], vec![]);
+        for qi in &q {
+            let x = Felt::THREE * pow_u128(w, bitrev(*qi, e));
+            let mut kc = vec![Felt::ZERO; ncol];
+            let mut r = Felt::ZERO;
+            for i in 0..nm {
+                let d = inv(x - aof[i]);
+                kc[colof[i]] += beta[i] * d;
+                r += beta[i] * oods[i] * d;
+            }
+            let pivot = (0..ncol).find(|c| kc[*c] != Felt::ZERO).ok_or("no pivot column")?;
+            let mut v: Vec<Felt> = (0..ncol).map(|_| rng.felt()).collect();
+            let mut acc = r;
+            for c in 0..ncol {
+                if c != pivot {
+                    acc -= v[c] * kc[c];
+                }
+            }
+            v[pivot] = acc * inv(kc[pivot]);
+            v1.extend_from_slice(&v[..n1]);
+            v2.extend_from_slice(&v[n1..n1 + n2]);
+            v3.extend_from_slice(&v[n1 + n2..]);
+        }
+        sp.witness.traces_decommitment.original = TD { values: v1 };
+        sp.witness.traces_decommitment.interaction = TD { values: v2 };
+        sp.witness.composition_decommitment = TD { values: v3 };
+        note += "; row answers solved so that the DEEP function vanishes at every query";
+    }
+    if plan.adaptive_siblings {
+        // S4: one sibling leaf per first-layer coset solved so that the fold is 0
+        let s1 = steps[1];
+        let cs = 1u128 << s1;
+        let e1 = *zero_challenges.first().ok_or("no FRI layer")?;
+        let deep_at = |qi: u128| -> Felt {
+            let x = Felt::THREE * pow_u128(w, bitrev(qi, e));
+            by_a.iter().fold(Felt::ZERO, |acc, (a, b)| acc + *b * inv(x - *a))
+        };
+        let mut cosets: Vec<u128> = q.iter().map(|x| x / cs).collect();
+        cosets.dedup();
+        let mut leaves = vec![];
+        for ci in cosets {
+            let members: Vec<u128> = (0..cs).map(|j| ci * cs + j).collect();
+            let free: Vec<usize> = (0..cs as usize).filter(|j| !q.contains(&members[*j])).collect();
+            let jstar = *free.first().ok_or("a first-layer coset is fully queried: nothing to solve")?;
+            let base_vals: Vec<Felt> = members.iter().map(|m| if q.contains(m) { deep_at(*m) } else { Felt::ZERO }).collect();
+            let x_inv = inv(pow_u128(w, bitrev(ci * cs, e)));
+            let fold = |vals: Vec<Felt>| swiftness_fri::formula::fri_formula(vals, e1, x_inv, Felt::from(cs as u64)).map_err(|e| format!("{e:?}"));
+            let f0 = fold(base_vals.clone())?;
+            let mut one = base_vals.clone();
+            one[jstar] = Felt::ONE;
+            let f1 = fold(one)?;
+            if f1 == f0 {
+                return Err("fold does not depend on the free sibling".into());
+            }
+            let sval = (Felt::ZERO - f0) * inv(f1 - f0);
+            for j in free {
+                leaves.push(if j == jstar { sval } else { Felt::ZERO });
+            }
+        }
+        sp.witness.fri_witness.layers[0].leaves = leaves;
+        note += "; first-layer sibling leaves solved so that every fold is 0";
+    }
     let _ = bitrev(0, 1);
     // the caller's security level: what cli/src/main.rs passes (the configuration's own claim)
     let security_bits = sp.config.security_bits();
